@@ -221,12 +221,26 @@ def release_rules(ck, tm, g, rule):
     """The release primitive has no call site outside the allocator's reject edge and the guard's destructor, and each
     of them releases exactly a mapping the injector made (shared by C12 R12.3 and C03 R3.7)."""
     allocs = set(allocator_fns(tm))
+    # functions "owned" by the destructor / allocator: private helpers all of whose crate-local callers are owned
+    callers = {}
+    for b in tm.facts.fn_bodies():
+        for name, foreign, local, t in tm.facts.callees_of(b):
+            if local and tm.facts.body(name) is not None:
+                callers.setdefault(name, set()).add(b["path"])
+    owned = set(allocs) | ({g.drop_fn} if g.drop_fn else set())
+    changed = True
+    while changed:
+        changed = False
+        for f, cs in callers.items():
+            if f not in owned and cs and cs <= owned and not (tm.facts.fns.get(f) or {}).get("reachable"):
+                owned.add(f)
+                changed = True
     nfree = 0
     for b in tm.facts.fn_bodies():
         for name, foreign, local, t in tm.facts.callees_of(b):
             if name in FREE_FFI:
                 nfree += 1
-                ok = b["path"] in allocs or b["path"] == g.drop_fn
+                ok = b["path"] in owned
                 ck.ob(rule, "release-site/%s" % short(b["path"]), tm.target, ok,
                       "%s is called in %s (%s)" % (short(name), b["path"], "allocator reject edge / guard destructor" if ok else "NOT an owner of mappings"),
                       "%s:%d" % (t["span"]["file"], t["span"]["line"]))
